@@ -119,6 +119,51 @@ func registerMoreModels(u *Unit) {
 			fx.assume(tTrue, implies(and(le(num(0), ns), le(ns, num(999999999))), eq(app(SInt, "unixsec", ts[0], ts[1]), sec)))
 			return r
 		})
+	u.reg("(*net/url.URL).Query", "returns the parsed query of u.RawQuery: a value whose Get(key) is qget(u.RawQuery, key)", nil,
+		func(fx *FX, st *State, c *CallCtx) Val {
+			up := c.Args[0].(VPtr)
+			fx.nilCheck(st, up.Ref, c.Pos, "URL receiver")
+			stt := up.Elem.Underlying().(*types.Struct)
+			idx, _, ok := findField(stt, "RawQuery")
+			r := fx.allocObj(st, "query", nil)
+			if ok {
+				rq := fx.loadLeaves(st, up.Ref, add(up.Off, num(fieldOffset(stt, idx))), types.Typ[types.String])[0]
+				st.Hs = fx.def("Hs", sto(st.Hs, r, sto(sel(st.Hs, r), num(0), app(SSeq, "qdec", rq))))
+			}
+			return VMap{Ref: r}
+		})
+	u.reg("(net/url.Values).Get", "for a value obtained from (*URL).Query(): qget(rawquery, key), the first value of key or \"\"; for a locally built url.Values: qval(contents, key)", nil,
+		func(fx *FX, st *State, c *CallCtx) Val {
+			m := c.Args[0].(VMap)
+			key := c.Args[1].(VStr).T
+			g := fx.mapGhost(st, m.Ref)
+			return VStr{fx.def("qget", app(SSeq, "qval", g, key))}
+		})
+	u.reg("(net/url.Values).Set", "sets key to the single value in a url.Values: contents become qset(contents, key, value)", []int{0},
+		func(fx *FX, st *State, c *CallCtx) Val {
+			m := c.Args[0].(VMap)
+			fx.nilCheck(st, m.Ref, c.Pos, "url.Values.Set on nil map")
+			if !fx.knownFresh[m.Ref.S] {
+				fx.oblige("frame:store", "map", st.PC, not(sel(fx.entry.Alloc, m.Ref)), c.Pos, "url.Values.Set on a map not created by this call")
+			}
+			fx.setMapGhost(st, m.Ref, app(SSeq, "qset", fx.mapGhost(st, m.Ref), c.Args[1].(VStr).T, c.Args[2].(VStr).T))
+			return VUnit{}
+		})
+	u.reg("(net/url.Values).Encode", "returns qenc(contents): the URL-encoded query; (*URL).Query() of it gives the contents back (axiom qval(qdec(qenc(m)), k) == qval(m, k))", nil,
+		func(fx *FX, st *State, c *CallCtx) Val {
+			m := c.Args[0].(VMap)
+			return VStr{fx.def("qenc", app(SSeq, "qenc", fx.mapGhost(st, m.Ref)))}
+		})
+	u.reg("net/url.PathEscape", "returns pesc(s) (uninterpreted)", nil,
+		func(fx *FX, st *State, c *CallCtx) Val {
+			return VStr{app(SSeq, "pesc", c.Args[0].(VStr).T)}
+		})
+	u.reg("(*net/url.URL).String", "returns urlstring(u): some string, a function of the URL's fields", nil,
+		func(fx *FX, st *State, c *CallCtx) Val {
+			up := c.Args[0].(VPtr)
+			fx.nilCheck(st, up.Ref, c.Pos, "URL receiver")
+			return fx.havoc("urlstr", types.Typ[types.String], tTrue)
+		})
 	u.reg("time.Now", "returns some instant", nil,
 		func(fx *FX, st *State, c *CallCtx) Val {
 			return fx.havoc("now", c.C.Signature().Results().At(0).Type(), tTrue)
